@@ -26,6 +26,7 @@ os.environ.setdefault('TREADMILL_HOSTNAME', 'verifhost')
 
 import greenlet  # noqa: E402
 import kazoo.exceptions  # noqa: E402
+import kazoo.retry  # noqa: E402
 
 from pbt import fakezk  # noqa: E402
 from pbt.run import Violation  # noqa: E402
@@ -186,22 +187,66 @@ class SimClient(fakezk.Client):
         super(SimClient, self).__init__(tree)
         self.observer = observer
         self.owner_svc = None
+        self.fault = None
+        self.on_fault = None
 
     def _observe(self, opname, path, outcome):
         if self.observer is not None:
             self.observer(self, opname, path, outcome)
 
+    def arm_fault(self, mode, skip):
+        """One-shot ConnectionLoss on the (skip+1)-th next write of this
+        session: mode 0 = the request never reaches ZooKeeper, mode 1 = it is
+        applied and the reply is lost."""
+        self.fault = [mode, skip]
+
+    def _write(self, opname, path, apply):
+        flt = self.fault
+        if flt is None:
+            return apply()
+        if flt[1] > 0:
+            flt[1] -= 1
+            return apply()
+        self.fault = None
+        if self.on_fault is not None:
+            self.on_fault(self, opname, path, flt[0])
+        if flt[0] == 0:
+            raise kazoo.exceptions.ConnectionLoss()
+        try:
+            apply()
+        except (kazoo.exceptions.NoNodeError,
+                kazoo.exceptions.NodeExistsError,
+                kazoo.exceptions.NotEmptyError,
+                kazoo.exceptions.BadVersionError):
+            pass        # the error reply is lost as well
+        raise kazoo.exceptions.ConnectionLoss()
+
     def create(self, path, value=b'', acl=None, ephemeral=False,
                sequence=False, makepath=False, include_data=False):
-        try:
-            res = super(SimClient, self).create(
+        parent = super(SimClient, self)
+
+        def apply():
+            return parent.create(
                 path, value, acl=acl, ephemeral=ephemeral, sequence=sequence,
                 makepath=makepath, include_data=include_data)
+
+        try:
+            res = self._write('create', path, apply)
         except kazoo.exceptions.NodeExistsError:
             self._observe('create', path, 'exists')
             raise
         self._observe('create', res, 'ok')
         return res
+
+    def set(self, path, value, version=-1):
+        parent = super(SimClient, self)
+        return self._write('set', path,
+                           lambda: parent.set(path, value, version))
+
+    def delete(self, path, version=-1, recursive=False):
+        parent = super(SimClient, self)
+        return self._write('delete', path,
+                           lambda: parent.delete(path, version, recursive))
 
     def get(self, path, watch=None):
         try:
@@ -257,6 +302,10 @@ class Callback(object):
         self.result = None
         self.glet = None
         self.sid = host.client.sid
+        self.sleeping = False  # inside KazooRetry's sleep
+        self.prev = {}         # path -> (claimant, rid in regs) before us
+        self.fault_path = None
+        self.faulted = False   # a ConnectionLoss was injected into it
 
 
 class Host(object):
@@ -279,6 +328,7 @@ class Host(object):
         self.client = SimClient(self.world.tree, self.world.observe)
         self.client.host = self
         self.client.op_hook = self._hook
+        self.client.on_fault = self.world.fault_fired
         self.new_service()
 
     def new_service(self):
@@ -337,6 +387,16 @@ class World(object):
             self.service_sids[host.client.sid] = host
         self.saved_exit = utils.sys_exit
         utils.sys_exit = _fail_exit
+        # kazoo's real retry helper, only its sleep becomes a schedule point
+        self.saved_retry = kazoo.retry.KazooRetry
+        world = self
+
+        class _SimRetry(self.saved_retry):
+            def __init__(self, *args, **kwargs):
+                kwargs.setdefault('sleep_func', world.retry_sleep)
+                super(_SimRetry, self).__init__(*args, **kwargs)
+
+        kazoo.retry.KazooRetry = _SimRetry
 
     # -- bookkeeping ------------------------------------------------------
     def stats_count(self, key, amount=1):
@@ -345,8 +405,37 @@ class World(object):
 
     def close(self):
         utils.sys_exit = self.saved_exit
+        kazoo.retry.KazooRetry = self.saved_retry
         for host in self.hosts:
             self._kill_current(host)
+
+    def retry_sleep(self, seconds):
+        """KazooRetry's sleep_func: virtual time passes and the harness gets
+        the schedule back, so that other sessions' handlers and watch
+        callbacks can run between the failed call and the retry."""
+        self.clock[0] += max(1, int(seconds * 1000))
+        self.stats_count('retry_sleeps')
+        for host in self.hosts:
+            cur = host.current
+            if cur is not None and greenlet.getcurrent() is cur.glet:
+                cur.trace.append(('sleep', None))
+                cur.sleeping = True
+                self.main.switch()
+                cur.sleeping = False
+                return
+
+    def fault_fired(self, client, opname, path, mode):
+        self.stats_count('faults_fired_%s_%s' % (
+            opname, 'reply_lost' if mode else 'request_lost'))
+        cur = client.host.current
+        if cur is not None and greenlet.getcurrent() is cur.glet:
+            cur.faulted = True
+            cur.fault_path = path
+
+    def op_fault(self, hostidx, mode, skip):
+        host = self.hosts[hostidx % len(self.hosts)]
+        host.client.arm_fault(mode % 2, skip)
+        self.stats_count('op_fault')
 
     def observe(self, client, opname, path, outcome):
         host = client.host
@@ -356,8 +445,10 @@ class World(object):
         cur.obs.append((opname, path, outcome))
         if cur.kind == 'create' and path in cur.paths:
             if outcome in ('ok', 'own'):
-                host.claims[path] = cur.rid
                 regs = host.regs.setdefault(path, [])
+                if path not in cur.prev:
+                    cur.prev[path] = (host.claims.get(path), cur.rid in regs)
+                host.claims[path] = cur.rid
                 if cur.rid not in regs:
                     regs.append(cur.rid)
                 host.ext_deleted.discard(path)
@@ -586,6 +677,11 @@ class World(object):
             cur = self._start(host)
             if cur is None:
                 return
+        for other in self.hosts:
+            oth = other.current
+            if other is not host and oth is not None and oth.faulted and \
+                    not oth.done and 'fault-interleaved' not in self.flags:
+                self.flags.add('fault-interleaved')
         cur.glet.switch()
         self.stats_count('zk_steps')
         if cur.glet.dead and not cur.done:
@@ -720,8 +816,26 @@ class World(object):
         host = cur.host
         if isinstance(cur.result, dict) and '_error' in cur.result:
             self.stats_count('callback_error_replies')
-            if cur.kind == 'create' and cur.rid in host.requests:
-                host.last_result[cur.rid] = cur.result
+            if cur.kind == 'create':
+                # the exception left _safe_create(path) half way: the node it
+                # was working on is NOT registered for this request (a get
+                # that shows our own session only counts once _safe_create
+                # returns; the following set may have failed)
+                path = cur.fault_path
+                if path is None and cur.trace:
+                    path = cur.trace[-1][1]
+                if path in cur.prev and host.claims.get(path) == cur.rid:
+                    before, was_in = cur.prev[path]
+                    if before is None:
+                        host.claims.pop(path, None)
+                    else:
+                        host.claims[path] = before
+                    if not was_in and cur.rid in host.regs.get(path, []):
+                        host.regs[path].remove(cur.rid)
+                    if path in cur.claimed:
+                        cur.claimed.remove(path)
+                if cur.rid in host.requests:
+                    host.last_result[cur.rid] = cur.result
             return
         if cur.kind == 'delete':
             if cur.result is not True:
@@ -775,11 +889,21 @@ class World(object):
                 self.check_audit(None)
                 self._purge_pending()
                 progressed = True
+            # a callback inside KazooRetry's sleep (>= 0.1 s) lets everybody
+            # else go first: that is the realistic order
             for host in self.hosts:
-                if host.current or host.queue:
+                if (host.current and not host.current.sleeping) or \
+                        (not host.current and host.queue):
                     self.step_host(host)
                     progressed = True
                     steps += 1
+            if not progressed:
+                for host in self.hosts:
+                    if host.current and host.current.sleeping:
+                        self.step_host(host)
+                        progressed = True
+                        steps += 1
+                        break
             if not progressed:
                 return
             if steps > limit:
@@ -912,6 +1036,8 @@ def run_schedule(case, stats):
                 world.op_step(op[1])
             elif name == 'fin':
                 world.op_finish(op[1])
+            elif name == 'flt':
+                world.op_fault(op[1], op[2], op[3])
             else:
                 raise HarnessError('unknown op %r' % (op,))
         world.finale()
@@ -947,8 +1073,8 @@ def run_unregister(case, stats):
     """
     HOSTNAMES = host_names(case, stats)  # pylint: disable=invalid-name
     tree = fakezk.Tree(lambda: 1000)
-    admin = fakezk.Client(tree)
-    sessions = [fakezk.Client(tree) for _ in HOSTNAMES]
+    admin = SimClient(tree)
+    sessions = [SimClient(tree) for _ in HOSTNAMES]
     me = case['me'] % len(HOSTNAMES)
     myname = HOSTNAMES[me]
     for path in ('/servers', '/server.presence', '/placement', '/scheduled',
@@ -1022,14 +1148,85 @@ def run_unregister(case, stats):
 
     before = tree.dump('/')
     start = len(tree.audit)
-    if call == 'kill':
-        presence.kill_node(admin, myname)
-    else:
-        obj = presence.EndpointPresence(zkclient, manifest, hostname=myname,
-                                        appname=app_name)
-        getattr(obj, 'unregister_' + call)()
+    caller = admin if call == 'kill' else zkclient
+    fault = case.get('fault')
+    deleted = []      # (path, data at the time of the delete)
+    recreated = {}    # path -> host name that re-registered it meanwhile
+    lost = []
+
+    def before_write(opname, path, client):
+        if opname == 'delete' and client is caller:
+            deleted.append((path, tree.nodes[path].data.decode()))
+
+    def on_fault(_client, _opname, path, _mode):
+        lost.append(path)
+
+    def retry_sleep(_seconds):
+        # between the failed call and the retry the other host's waiting
+        # registration runs: the node that went away is re-created under
+        # that host's session
+        stats.count('unreg_retry_sleeps')
+        for path in lost:
+            if path in tree.nodes or path not in named:
+                continue
+            other = (me + 1 + fault[1]) % len(HOSTNAMES)
+            if path.startswith('/running/'):
+                data = HOSTNAMES[other]
+            elif path.startswith('/endpoints/'):
+                data = '%s:%d' % (HOSTNAMES[other], 32500)
+            else:
+                data = json.dumps({'host': HOSTNAMES[other],
+                                   'app': app_name}, sort_keys=True)
+            sessions[other].create(path, data.encode(), ephemeral=True)
+            recreated[path] = HOSTNAMES[other]
+            stats.count('unreg_recreated_during_retry')
+
+    saved_retry = kazoo.retry.KazooRetry
+
+    class _SimRetry(saved_retry):
+        def __init__(self, *args, **kwargs):
+            kwargs.setdefault('sleep_func', retry_sleep)
+            super(_SimRetry, self).__init__(*args, **kwargs)
+
+    if fault is not None:
+        caller.on_fault = on_fault
+        caller.arm_fault(fault[0] % 2, 0)
+        stats.count('unreg_fault_armed')
+    tree.before_write = before_write
+    kazoo.retry.KazooRetry = _SimRetry
+    try:
+        if call == 'kill':
+            presence.kill_node(admin, myname)
+        else:
+            obj = presence.EndpointPresence(zkclient, manifest,
+                                            hostname=myname, appname=app_name)
+            getattr(obj, 'unregister_' + call)()
+    except (kazoo.exceptions.ConnectionLoss,
+            kazoo.retry.RetryFailedError):
+        if not lost:
+            raise
+        stats.count('unreg_connection_loss_propagated')
+    finally:
+        kazoo.retry.KazooRetry = saved_retry
+        tree.before_write = None
+        caller.fault = None
     after = tree.dump('/')
     stats.count('unreg_' + call)
+
+    # every delete is judged against what the node said at that moment
+    for path, data in deleted:
+        if path.startswith('/identity-groups/'):
+            host = json.loads(data).get('host')
+        else:
+            host = data.split(':')[0]
+        if path in named and host != myname:
+            raise Violation(
+                'c17.unregister.foreign-host',
+                'unregister %s for %s on %s deleted %s which names %s%s' % (
+                    call, app_name, myname, path, host,
+                    ' (re-registered by that host after the first delete '
+                    'was applied and its reply lost)'
+                    if path in recreated else ''))
 
     for opname, path, _sid, _owner in tree.audit[start:]:
         if opname != 'delete':
@@ -1038,6 +1235,8 @@ def run_unregister(case, stats):
                                 call, myname, opname, path))
     foreign_in_scope = False
     for path in sorted(before):
+        if path in recreated:
+            continue
         if path not in named:
             if path not in after or after[path] != before[path]:
                 raise Violation('c17.unregister.unrelated',
